@@ -3,5 +3,6 @@ From V Require Import lib.Base model.SendQ gen.Gen_sendq.
 Lemma tie_prog : Gen_sendq.send_prog = SendQ.prog.
 Proof. reflexivity. Qed.
 Lemma tie_lock : Gen_sendq.sendlock_is_plain_lock = true /\ Gen_sendq.send_queue_is_fresh_list = true
-  /\ Gen_sendq.send_state_private_to_send = true /\ Gen_sendq.send_state_untouched_elsewhere = true.
+  /\ Gen_sendq.send_state_private_to_send = true /\ Gen_sendq.send_state_untouched_elsewhere = true
+  /\ Gen_sendq.channel_written_only_by_send = true.
 Proof. repeat split. Qed.
